@@ -522,3 +522,38 @@ MCQ_UNITS.append(Unit("mcq.thread_exited", "../C17/mcq_exit.c", enforce="implici
     funcs=[MCQ + ": ConcurrentQueue::implicit_producer_thread_exited"], min_obligations=20, solver=["--sat-solver", "cadical"],
     doc="I: the exiting thread's <id -> producer> entry is turned into a tombstone in EVERY hash table of the chain (linear probing "
         "from its home slot, any collision distance) before the producer is marked recyclable; the CAS only ever targets the thread's own id"))
+
+
+# ---- the two users of the block index (added by main together with mcq.new_block_index) ----
+MCQ_IDX2_RULES = [
+    Sub(r"\btypename std::make_signed<index_t>::type\b", "int64_t", None),
+    Sub(r"\bblockIndex\.load\([^)]*\)", "self->blockIndex", None),
+    Sub(r"->tail\.load\([^)]*\)", "->tail", None),
+    Sub(r"((?:\(\*\w+\))|\b\w+)->index\[(\w+)\]", r"index_entry(\1, \2)", None),
+    Sub(r"->key\.load\([^)]*\)", "->key", None),
+    Sub(r"->value\.load\([^)]*\)\s*!=\s*nullptr", "->value_nonnull", None),
+    Sub(r"->value\.load\([^)]*\)\s*==\s*nullptr", "->value_nonnull == false", None),
+    Call(r"\bassert", "VX_PIKA_ASSERT({args})", None),
+]
+MCQ_UNITS.append(Unit("mcq.block_index_lookup", "../C17/mcq_index2.c", defines=["U_LOOKUP"] + _mcq_traits(), enforce="get_block_index_index_for_index",
+    lifts={"body": Lift(MCQ, r"inline size_t get_block_index_index_for_index\(\s*index_t index, BlockIndexHeader\*& localBlockIndex\) const", rules=[
+        Sub(r"\blocalBlockIndex\b", "(*localBlockIndex)", None),
+        Sub(r"\bauto (tail|offset|idx)\b", r"size_t \1", None), Sub(r"\bauto (tailBase)\b", r"index_t \1", None),
+    ] + MCQ_IDX2_RULES)},
+    funcs=[MCQ + ": ConcurrentQueue::ImplicitProducer::get_block_index_index_for_index"], min_obligations=8, solver=["--sat-solver", "cadical"],
+    doc="F: given the ring invariant key == tailBase - d * BLOCK_SIZE the lookup arithmetic returns exactly the slot d behind the tail "
+        "(all capacities, wrap-around of slots and of the 64-bit element index included)"))
+for _am in ("CanAlloc", "CannotAlloc"):
+    MCQ_UNITS.append(Unit("mcq.insert_block_index_entry." + _am, "../C17/mcq_index2.c", defines=["U_INSERT", "ALLOC_MODE=" + _am] + (["CAN_ALLOC=1"] if _am == "CanAlloc" else []) + _mcq_traits(),
+        enforce="insert_block_index_entry",
+        lifts={"body": Lift(MCQ, r"insert_block_index_entry\(BlockIndexEntry\*& idxEntry, index_t blockStartIndex\)", rules=[
+            Sub(r"\bMOODYCAMEL_CONSTEXPR_IF\b", "if", None),
+            Sub(r"\bauto (\w+) = blockIndex\.load\([^)]*\);", r"struct bih *\1 = self->blockIndex;", 1),
+            Sub(r"\bidxEntry\b", "(*idxEntry)", None),
+            Sub(r"\(\*idxEntry\)->key\.store\((\w+), std::memory_order_\w+\);", r"entry_key_store((*idxEntry), \1);", None),
+            Sub(r"\b(\w+)->tail\.store\((\w+), std::memory_order_\w+\);", r"tail_store(\1, \2);", None),
+            Sub(r"(?<![\w>.])new_block_index\(\)", "new_block_index(self)", None),
+        ] + MCQ_IDX2_RULES)},
+        funcs=[MCQ + ": ConcurrentQueue::ImplicitProducer::insert_block_index_entry<%s>" % _am], min_obligations=20, solver=["--sat-solver", "cadical"],
+        doc="T: only the free entry after the tail of the current index is taken (an entry in use is never overwritten; a full index is "
+            "grown once or the call fails), the key is written before the new tail is published, entries in use keep their place"))
